@@ -123,8 +123,11 @@ DIMS_POOL = [(2, 2, 2), (2, 2, 3), (3, 2, 2), (2, 2, 4), (2, 3, 3), (2, 2, 5), (
              (2, 3, 4), (3, 3, 4), (2, 2, 6)]
 
 
-# unit of length: the same mesh multiplied by 2^k (exact), ~1e-4 ... ~1e3
-SCALE_EXPS = [-13, -10, -7, -3, 0, 0, 0, 3, 7, 10]
+# unit of length: the same mesh multiplied by 2^k (exact), ~1e-12 ... ~1e9
+# (a nanometre-scale sample described in metres, a kilometre-scale one in
+# millimetres): absolute thresholds anywhere in the operator code (1e-10 on a
+# coordinate difference, 1e-20 on a determinant, ...) are crossed by some mesh
+SCALE_EXPS = [-40, -37, -27, -20, -13, -10, -7, -3, 0, 0, 0, 3, 7, 10, 20, 30]
 
 
 def floor_of(mesh):
@@ -202,6 +205,9 @@ def plan(ctx):
     per_case_cap = 12.0 if quick else 60.0
     meshes, cases = {}, []
     combos = all_kw()
+    # every length unit occurs (stratified: a shuffled cycle through the list,
+    # offset by one after each pass so that tet/hex alternate per unit)
+    unit_cycle = rng.sample(SCALE_EXPS, len(SCALE_EXPS))
     for k in range(n_mesh):
         et = 'tet' if k % 2 == 0 else 'hex'
         pool = DIMS_POOL if quick else DIMS_POOL + [(3, 3, 5), (4, 3, 3), (4, 4, 3), (2, 4, 5)]
@@ -215,7 +221,7 @@ def plan(ctx):
         holes = 0.3 if (k % 5 == 3 and min(dims) >= 2 and max(dims) >= 3) else 0.0
         mesh = G.gen_mesh(rng, et, dims, spacing_max=rng.choice([2, 2, 3, 5]), jitter=jitter, map_name=mp,
                           id_mode=idm, order=order, elem_order=elem_order, holes=holes)
-        G.scale_mesh(mesh, rng.choice(SCALE_EXPS))
+        G.scale_mesh(mesh, unit_cycle[(k + k // len(unit_cycle)) % len(unit_cycle)])
         # coordinate dtype handed to femio (integers only where the coordinates are integers)
         dts = ['float64'] * 5 + ['float32'] + (['int64', 'int32'] if mesh['scale_exp'] >= 0 else [])
         mesh['xyz_dtype'] = rng.choice(dts)
@@ -1263,7 +1269,11 @@ def main(ctx):
     bl = lib.VERIF / 'corpus' / PID / 'source_baseline.json'
     if bl.exists():
         base = json.loads(bl.read_text())
-        changed = sorted(k for k in set(base) | set(ctx.sources) if base.get(k) != ctx.sources.get(k))
+        # a baseline value is one hash or a list of accepted hashes (the tree
+        # before and after a proposed fix that is awaiting its `fix:` commit)
+        def same(b, h):
+            return h in b if isinstance(b, list) else b == h
+        changed = sorted(k for k in set(base) | set(ctx.sources) if not same(base.get(k), ctx.sources.get(k)))
         if changed:
             ctx.notes['modelled_source_changed'] = changed
             ctx.log('modelled source differs from the baseline:', changed, '-> extended search sizes')
